@@ -36,7 +36,8 @@ def run(ctx):
         pp = ctx.path("paths%d.ndjson" % k)
         vlib.write_ndjson(pp, ps)
         tr = ctx.path("replay%d.ndjson" % k)
-        out = ctx.run_bin("c23", ["replay", "--in", pp, "--out", tr, "--kinds", kinds], timeout=3000)
+        # the closes of keeper-created cut orders (liquidate / auto_deleverage) are appended to the first trace only
+        out = ctx.run_bin("c23", ["replay", "--in", pp, "--out", tr, "--kinds", kinds, "--cuts", "yes" if k == 0 else "no"], timeout=3000)
         stat = json.loads(out.strip().splitlines()[-1])
         vlib.log("  replay %s: states=%d unreachable=%d mismatch=%d events=%d instructions=%d" % (
             kinds, stat["states"], stat["unreachable"], stat["state_mismatch"], stat["events"], stat["instructions"]))
@@ -77,6 +78,9 @@ def run(ctx):
     for kind in KINDS:
         need += ["%s/execute/keeper/normal/ok" % kind, "%s/close/owner/normal/ok" % kind, "%s/close/keeper/normal/ok" % kind,
                  "%s/close/keeper/normal/PermissionDenied" % kind, "%s/execute/stranger/normal/PermissionDenied" % kind]
+    # closed keeper-created actions (creator = keeper, owner = the position owner)
+    need += ["cut_liquidate/close/keeper/normal/ok", "cut_adl/close/keeper/normal/ok", "cut_liquidate/close/owner/normal/ok",
+             "cut_adl/close/owner/normal/ok"]
     missing = [c for c in need if c not in classes]
     if missing and not ctx.violations:
         raise vlib.ToolError("vacuity: classes never observed in the traces: %s" % missing)
@@ -98,6 +102,9 @@ def run(ctx):
         "transfer-out pair) are excluded, so the market accounts are not byte-identical after a soft failure",
         "the executor of execute_* / close_* is loaded writable like a transaction fee payer (the programs pay the execution fee to it)",
         "a closed action address is not created again (that would be a new action)",
+        "keeper-created actions: the completed orders that liquidate / auto_deleverage create (whole-position cuts of positions "
+        "opened by real MarketIncrease orders, all side / collateral combinations, PnL swap succeeding and failing) are closed by the "
+        "keeper and, on a copy, by the position owner; judged by TerminalClosable, CloseAuth, EscrowHome",
         "the keeper claims 100 000 of the 300 000 execution lamports per execution, so that a second execution of an already "
         "terminal action would be payable (and is then judged by ExecOnce / TerminalKept) instead of failing on the fee"]
     return ctx.finish("model_checking",
